@@ -55,6 +55,7 @@ func WorkerMain(propID, tier string, seed int64, from, to int, dir, name string,
 	}
 	for idx := from; idx < to; idx++ {
 		fmt.Fprintf(jf, "S %d\n", idx)
+		SetContext(nil)
 		done := make(chan Result, 1)
 		go func(idx int) {
 			defer func() {
@@ -63,9 +64,9 @@ func WorkerMain(propID, tier string, seed int64, from, to int, dir, name string,
 					res := Result{Index: idx, Key: fmt.Sprintf("panic-%d", idx)}
 					st := string(debug.Stack())
 					if panicInHarness(st) {
-						res.Violate("harness-panic", fmt.Sprint(r), nil, map[string]any{"stack": trimStack(st)})
+						res.Violate("harness-panic", fmt.Sprint(r), nil, map[string]any{"stack": trimStack(st), "context": takeContext()})
 					} else {
-						res.Violate("panic", fmt.Sprint(r), map[string]string{"panic": PanicSignature(fmt.Sprint(r), st)}, map[string]any{"stack": trimStack(st)})
+						res.Violate("panic", fmt.Sprint(r), map[string]string{"panic": PanicSignature(fmt.Sprint(r), st)}, map[string]any{"stack": trimStack(st), "context": takeContext()})
 					}
 					done <- res
 				}
